@@ -103,11 +103,11 @@ impl<T> OneShotShared<T> {
           }
         }
       }
-      // If state was WRITING, TAKEN, or CLOSED, wake the receiver if needed.
-      else if self.state.load(Ordering::Relaxed) != STATE_TAKEN
-        && self.state.load(Ordering::Relaxed) != STATE_SENT
-      {
-        // Avoid waking if value is there or taken
+      // If state was WRITING, TAKEN, or CLOSED, wake the receiver if needed. A
+      // receiver that polls again after taking the value is pending on exactly
+      // this event (its poll reports Disconnected once no sender is left).
+      else if self.state.load(Ordering::Relaxed) != STATE_SENT {
+        // Avoid waking if the value is there: that wake was already issued.
         self.receiver_waker.wake();
       }
     }
@@ -337,7 +337,15 @@ impl<T> OneShotShared<T> {
               return Poll::Ready(Err(RecvError::Disconnected));
             }
             Err(TryRecvError::Empty) => {
-              // Still empty
+              // Still empty. `try_recv` reports Empty for a value that was
+              // already TAKEN even when no sender is left, so repeat the
+              // disconnect check here: the last sender may have gone (and
+              // issued its wake) between that check above and `register`.
+              if self.sender_count.load(Ordering::Acquire) == 0
+                && self.state.load(Ordering::Acquire) != STATE_SENT
+              {
+                return Poll::Ready(Err(RecvError::Disconnected));
+              }
               // Waker is correctly registered for the current "empty" state.
               return Poll::Pending;
             }
